@@ -20,6 +20,7 @@ import (
 
 	"github.com/flamego/flamego"
 	"github.com/flamego/flamego/verifharness/internal/evid"
+	"github.com/flamego/flamego/verifharness/internal/model"
 	"github.com/flamego/flamego/verifharness/internal/rt"
 )
 
@@ -317,12 +318,12 @@ func checkCase(c Case) (out evid.Outcome) {
 			}
 		}
 		if safe {
+			// a cookie that SetCookie did not produce: it is present, so it is
+			// returned - as it stands or decoded with the codec cookies are read with
+			// (which codec that is only shows in the round trip above)
 			want, ok := queryDecode(rawv)
-			if !ok {
-				want = rawv
-			}
-			if s.rawCookie != want {
-				return evid.Fail("cookie-raw", "Cookie header value %q is read as %q, want %q", rawv, s.rawCookie, want)
+			if s.rawCookie != rawv && !(ok && s.rawCookie == want) && s.rawCookie != model.Decode1(rawv) {
+				return evid.Fail("cookie-raw", "Cookie header value %q is read as %q, want it as it stands or decoded (%q)", rawv, s.rawCookie, want)
 			}
 		}
 	}
